@@ -4,6 +4,8 @@
 # suite passes, demo fails with / passes without the change), then runs the property's quick
 # check against it in /repo and reverts. Stores everything under /verif/seeded/<name>/.
 set -u
+# SHADOW=1: run the check part against the shadow copy (tools/shadow.sh make) instead of /repo itself
+if [ "${SHADOW:-0}" = 1 ]; then CHECK_REPO=/tmp/shadow/repo; CHECK_VERIF=/tmp/shadow/verif; else CHECK_REPO=/repo; CHECK_VERIF=/verif; fi
 ID="$1"; NAME="$2"; WT="$3"; DEMO="$4"; shift 4
 OUT="/verif/seeded/$NAME"; mkdir -p "$OUT"
 CF="/tmp/cf/$NAME"; rm -rf "$CF"; mkdir -p /tmp/cf
@@ -26,12 +28,12 @@ res "demo without the change: exit $without ($(grep -E '^test result' /tmp/cf/de
 cd /verif
 git -C /repo worktree remove --force "$CF"; rm -rf /tmp/cf/target-$NAME
 # now the check
-if [ -n "$(git -C /repo status --porcelain)" ]; then res "/repo not clean, refusing"; exit 2; fi
-git -C /repo apply "$OUT/patch.diff" || { res "patch does not apply to /repo"; exit 1; }
+if [ -n "$(git -C $CHECK_REPO status --porcelain)" ]; then res "/repo not clean, refusing"; exit 2; fi
+git -C $CHECK_REPO apply "$OUT/patch.diff" || { res "patch does not apply to /repo"; exit 1; }
 for tier in quick; do
-  ./run.sh check "$ID" $tier > "$OUT/check-$tier.log" 2>&1; rc=$?
+  (cd $CHECK_VERIF && ./run.sh check "$ID" $tier) > "$OUT/check-$tier.log" 2>&1; rc=$?
   res "check $ID $tier against the change: exit $rc; $(grep -c '^VIOLATION' "$OUT/check-$tier.log") VIOLATION lines; $(grep '^SUMMARY' "$OUT/check-$tier.log" | cut -c1-200)"
   grep '^VIOLATION' "$OUT/check-$tier.log" | cut -c1-300 | head -5 >> "$OUT/confirm.log"
 done
-git -C /repo checkout -- .
-res "reverted: $(git -C /repo status --porcelain | wc -l) dirty files"
+git -C $CHECK_REPO checkout -- .
+res "reverted: $(git -C $CHECK_REPO status --porcelain | wc -l) dirty files"
